@@ -35,6 +35,9 @@ DataStmts ==
      {St(EAsg(n, ERec(<<RStatic(<<12>>, N1), RStatic(<<13>>, EList(<<N1>>))>>)), "") : n \in Vars}      \* n = {a: 1, b: [1]}
   \cup {St(EAsg(n, ELit(v)), "") : n \in Vars, v \in {SA, Bool(TRUE), Null}}
   \cup {St(EAsg(n, EList(<<ENum(2)>>)), "") : n \in Vars}
+  \cup {St(EAsg(n, EList(<<ENum(2), N1>>)), "") : n \in Vars}                                               \* n = [2, 1]
+  \cup {St(EAsg(n, ECall(EId("sort"), <<EId(m)>>)), "") : n \in Vars, m \in Vars}                          \* n = sort(m): m stays as it was
+  \cup {St(ECall(EId("sort_by"), <<EId(m), ELam(<<Req("x")>>, EId("x"))>>), "") : m \in Vars}
   \cup {St(EAsg(n, ERec(<<RShort(m), RStatic(<<12>>, ENum(2))>>)), "") : n \in Vars, m \in Vars}          \* n = {m, a: 2}
   \cup {St(EAsg(n, ERec(<<RStatic(<<14>>, ENum(3)), RSpreadE(EId(m)), RStatic(<<14>>, ENum(4))>>)), "") : n \in Vars, m \in Vars}
   \cup {St(EAsg(n, ERec(<<RDyn(EId(m), N1)>>)), "") : n \in Vars, m \in Vars}                              \* n = {[m]: 1}
